@@ -234,8 +234,8 @@ pub mod __verif {
     }
 
     /// Installs (or removes) the preemption hook of the current thread: a callback that runs
-    /// immediately before every atomic operation on a state word. While it runs it is not
-    /// installed, so the operations it performs itself do not call it.
+    /// immediately before and immediately after every atomic operation on a state word. While it
+    /// runs it is not installed, so the operations it performs itself do not call it.
     pub fn set_preempt_hook(hook: Option<Box<dyn FnMut()>>) {
         PREEMPT.with(|p| *p.borrow_mut() = hook);
     }
@@ -300,6 +300,7 @@ pub mod __verif {
                 super::preempt();
                 let r = self.0.load(o);
                 self.rec("load", [0, 0], format!("{:?}", o), Some(r), true);
+                super::preempt();
                 r
             }
 
@@ -308,6 +309,7 @@ pub mod __verif {
                 super::preempt();
                 self.0.store(v, o);
                 self.rec("store", [v, 0], format!("{:?}", o), None, true);
+                super::preempt();
             }
 
             /// See `core::sync::atomic::AtomicUsize::compare_exchange`.
@@ -315,6 +317,7 @@ pub mod __verif {
                 super::preempt();
                 let r = self.0.compare_exchange(a, b, s, f);
                 self.rec("cas", [a, b], format!("{:?}/{:?}", s, f), Some(r.unwrap_or_else(|x| x)), r.is_ok());
+                super::preempt();
                 r
             }
 
@@ -323,6 +326,7 @@ pub mod __verif {
                 super::preempt();
                 let r = self.0.compare_exchange_weak(a, b, s, f);
                 self.rec("casw", [a, b], format!("{:?}/{:?}", s, f), Some(r.unwrap_or_else(|x| x)), r.is_ok());
+                super::preempt();
                 r
             }
 
@@ -331,6 +335,7 @@ pub mod __verif {
                 super::preempt();
                 let r = self.0.fetch_add(v, o);
                 self.rec("fadd", [v, 0], format!("{:?}", o), Some(r), true);
+                super::preempt();
                 r
             }
 
@@ -339,6 +344,7 @@ pub mod __verif {
                 super::preempt();
                 let r = self.0.fetch_sub(v, o);
                 self.rec("fsub", [v, 0], format!("{:?}", o), Some(r), true);
+                super::preempt();
                 r
             }
 
@@ -347,6 +353,7 @@ pub mod __verif {
                 super::preempt();
                 let r = self.0.fetch_or(v, o);
                 self.rec("for", [v, 0], format!("{:?}", o), Some(r), true);
+                super::preempt();
                 r
             }
 
@@ -355,6 +362,7 @@ pub mod __verif {
                 super::preempt();
                 let r = self.0.fetch_and(v, o);
                 self.rec("fand", [v, 0], format!("{:?}", o), Some(r), true);
+                super::preempt();
                 r
             }
         }
